@@ -11,6 +11,7 @@ Step(ev) ==
        [] ev.op = "shuffle_two" -> IsPerm(ev.res1, ev.n) /\ ev.res2 = ev.res1
        [] ev.op = "multiset"    -> ev.sorted_in = ev.sorted_out      \* repeated / special values, paired tokens
        [] ev.op = "jackknife"   -> ev.rows = JackknifeSpec(ev.n)
+       [] ev.op = "jackknife_tokens" -> ev.rows = [i \in 1..ev.n |-> RemoveAt(ev.input, i)]      \* repeated / special values: by position
        [] ev.op = "bootstrap"   -> Len(ev.rows) = ev.b /\ \A i \in 1..Len(ev.rows) : BootRowOk(ev.rows[i], ev.n)
        [] ev.op = "bootstrap_counts" ->
              /\ ev.nrows = ev.b /\ ev.rowlens = <<ev.n>> /\ ev.foreign = 0
